@@ -16,7 +16,7 @@ import shutil
 import subprocess
 
 from ..core import env, par, shrink
-from ..core.result import Failure, Report
+from ..core.result import Failure, Report, robust
 
 ID = "C13"
 GCC = shutil.which("gcc")
@@ -205,9 +205,13 @@ def _work(arg):
             for i in range(len(es)):
                 if len(es) > 1:
                     yield es[:i] + es[i + 1:]
-        w = shrink.minimize(tuple(entries), cands, fl)
-        bb = [x for x in judge(base, root, list(w)) if x[0] == kind][0]
-        f = Failure(kind, {"entries": [e["name"] for e in w], "database": [_rel(e["entry"], base) for e in w]}, expected=_relx(bb[1], base), observed=_relx(bb[2], base))
+        def mk():
+            if not fl(tuple(entries)):
+                return None
+            w = shrink.minimize(tuple(entries), cands, fl)
+            bb = [x for x in judge(base, root, list(w)) if x[0] == kind][0]
+            return Failure(kind, {"entries": [e["name"] for e in w], "database": [_rel(e["entry"], base) for e in w]}, expected=_relx(bb[1], base), observed=_relx(bb[2], base))
+        f = robust(mk, {"entries": [e["name"] for e in entries]})
         if f.key() not in seen:
             seen.add(f.key())
             out.append(f)
